@@ -28,7 +28,10 @@ Deviation(path, subs) == St("deviation", path, subs)
 Deviate(how, subs) == St("deviate", <<how>>, subs)
 
 \* classes of input that known findings refer to
+RECURSIVE AugWhenUses(_)
+AugWhenUses(st) == (st.kw = "augment" /\ Has(st, "when") /\ Has(st, "uses")) \/ \E i \in 1..Len(st.subs) : AugWhenUses(st.subs[i])
 InputClasses(M) == {"feature-in-submodule" : i \in {j \in 1..Len(M) : M[j].kw = "submodule" /\ Has(M[j], "feature")}}
+              \cup {"uses-in-augment-with-when" : i \in {j \in 1..Len(M) : AugWhenUses(M[j])}}
 
 CaseOf(m, e, alt) == [m |-> m, e |-> e, alt |-> alt, fl |-> <<>>]
 
@@ -355,9 +358,54 @@ H3Sets(t, top) == {
       Module("d", <<"a">>, <<Deviation(<<"a", "top">> \o Abs(t[2], "a"), <<Deviate("add", <<P("config", "false")>>)>>)>>) >> }
 H3(u_) == UNION { { [m |-> m, e |-> {}, alt |-> "none", fl |-> Filters(0)] : m \in H3Sets(t, <<>>) \cup H3Sets(t, <<P("config", "true")>>) } : t \in H3Targets }
 
+\* F9: an introduced node carries its own when / if-feature whose text equals (or differs only in prefix from) the one
+\* written on the uses / augment.  Equal text is not equal meaning: an unprefixed feature name belongs to the module it
+\* is written in, a when of an augment is evaluated on the target, the node's own when on the node.  Both apply.
+F9GBody(fp) == << Leaf("x", <<IfF(fp, "f")>>), Cont("c", <<IfF(fp, "f"), Leaf("y", <<>>)>>), Leaf("z", <<>>) >>
+WV == P("when", "w = 'v'")
+WP == P("when", "../w = 'v'")
+F9Sets(u_) == {
+   << Module("b", <<>>, <<Feature("f", <<>>), Grouping("g", F9GBody(""))>>),
+      Module("a", <<"b">>, <<Feature("f", <<>>), Cont("top", <<Uses("b", "g", <<IfF("", "f")>>)>>)>>) >>,
+   << Module("b", <<>>, <<Feature("f", <<>>), Grouping("g", F9GBody("b"))>>),
+      Module("a", <<"b">>, <<Feature("f", <<>>), Cont("top", <<Uses("b", "g", <<IfF("a", "f")>>)>>)>>) >>,
+   << Module("b", <<>>, <<Feature("f", <<>>), Grouping("g", F9GBody(""))>>),
+      Module("a", <<"b">>, <<Feature("f", <<>>), Cont("top", <<Uses("b", "g", <<IfF("b", "f")>>)>>)>>) >>,
+   << Module("a", <<>>, <<Feature("f", <<>>), Grouping("g", F9GBody("")), Cont("top", <<Uses("", "g", <<IfF("", "f")>>)>>)>>) >>,
+   << Submodule("as", "a", <<>>, <<Grouping("g", <<Leaf("x", <<>>), Leaf("z", <<>>)>>)>>),
+      Module("b", <<>>, <<Feature("f", <<>>), Grouping("g", F9GBody(""))>>),
+      Module("a", <<>>, <<Include("as"), Feature("f", <<>>), Cont("top", <<Leaf("w", <<>>)>>)>>),
+      Module("c", <<"a", "b">>, <<Feature("f", <<>>), Augment(<<"a", "top">>, <<IfF("", "f"), Uses("b", "g", <<>>)>>)>>) >>,
+   << Module("a", <<>>, <<Feature("f", <<>>), Cont("top", <<Leaf("w", <<>>)>>)>>),
+      Module("c", <<"a">>, <<Feature("f", <<>>), Augment(<<"a", "top">>, <<IfF("", "f"), Leaf("n", <<IfF("", "f")>>), Leaf("m", <<IfF("a", "f")>>)>>)>>) >>,
+   \* when: augment (module level, inside uses), uses; same text on the node itself
+   << Module("a", <<>>, <<Cont("top", <<Leaf("w", <<>>)>>)>>),
+      Module("c", <<"a">>, <<Augment(<<"a", "top">>, <<WV, Leaf("n", <<WV>>), Leaf("m", <<>>), Leaf("o", <<WP>>)>>)>>) >>,
+   << Module("a", <<>>, <<Cont("top", <<Leaf("w", <<>>)>>), Augment(<<"", "top">>, <<WV, Leaf("n", <<WV>>), Leaf("m", <<>>)>>)>>) >>,
+   << Module("a", <<>>, <<Grouping("g", <<Cont("c", <<Leaf("w", <<>>)>>)>>),
+                          Cont("top", <<Uses("", "g", <<Augment(<<"", "c">>, <<WV, Leaf("n", <<WV>>), Leaf("m", <<>>)>>)>>)>>)>>) >>,
+   << Module("a", <<>>, <<Grouping("g", <<Leaf("x", <<WP>>), Leaf("y", <<>>), Leaf("z", <<WV>>)>>), Cont("top", <<Leaf("w", <<>>), Uses("", "g", <<WP>>)>>)>>) >>,
+   << Module("b", <<>>, <<Grouping("g", <<Leaf("x", <<WP>>), Leaf("y", <<>>)>>)>>),
+      Module("a", <<"b">>, <<Cont("top", <<Leaf("w", <<>>), Uses("b", "g", <<WP>>)>>)>>) >> }
+F9(u_) == UNION { {CaseOf(m, e, "inline") : e \in FeatSets({<<"a", "f">>, <<"b", "f">>, <<"c", "f">>})} : m \in F9Sets(0) }
+
+\* H4: attributes of a surviving node that refer to nodes the filter removes (unique, key, must/when texts, default
+\* case, min/max-elements, ordered-by, defaults): pruning leaves them as they are.  cf[i] says which of the
+\* referred-to nodes are config false.
+H4Tree(cf) == << Leaf("s", CF(cf[1])),
+   St("list", <<"l">>, <<St("key", <<"k">>, <<>>), St("unique", <<"v", "w">>, <<>>), St("unique", <<"c/cl">>, <<>>), St("unique", <<"ch/ca/q", "w">>, <<>>),
+                          St("unique", <<"ch/sh/sh">>, <<>>), P("must", "v = 'x' or c/cl"), P("when", "../s"), P("min-elements", "1"), P("max-elements", "5"),
+                          P("ordered-by", "user"),
+                          Leaf("k", <<>>), Leaf("v", CF(cf[2])), Leaf("w", <<P("default", "dw"), P("must", "../v")>>),
+                          Cont("c", <<Leaf("cl", CF(cf[3]))>>),
+                          Choice("ch", <<P("default", "ca"), Case("ca", <<Leaf("q", CF(cf[4]))>>), Leaf("sh", CF(cf[5]))>>),
+                          LeafList("ll", CF(cf[6]) \o <<P("min-elements", "1"), P("ordered-by", "user")>>)>>),
+   Cont("pc", <<P("presence", "p"), P("must", "../s"), Leaf("pm", CF(cf[1]) \o <<P("mandatory", "true")>>)>>) >>
+H4(u_) == { [m |-> <<Module("a", <<>>, H4Tree([i \in 1..6 |-> i \in on]))>>, e |-> {}, alt |-> "none", fl |-> Filters(0)] : on \in SUBSET (1..6) }
+
 Family(name) == CASE name = "F1" -> F1(Bodies(0)) [] name = "F1q" -> F1(BodiesA(0)) [] name = "F2" -> F2(0) [] name = "F3" -> F3(0) [] name = "F4" -> F4(0) [] name = "F5" -> F5(0) [] name = "F6" -> F6(F6Extras(0)) [] name = "F6q" -> F6({<<>>, <<P("when", "1 = 1")>>}) [] name = "F7" -> F7(0) [] name = "F8" -> F8(0)
                   [] name = "G1c" -> G1K("container") [] name = "G1l" -> G1K("list") [] name = "G1h" -> G1K("choice")
                   [] name = "G2a" -> G2D(1) [] name = "G2b" -> G2D(2) [] name = "G2c" -> G2D(3) [] name = "G2d" -> G2D(4) [] name = "G2e" -> G2D(5)
                   [] name = "G2X" -> G2X(0) [] name = "G2S" -> G2S(0) [] name = "G3" -> G3(0) [] name = "G4" -> G4(0) [] name = "G4X" -> G4X(0)
-                  [] name = "H1q" -> H1(7) [] name = "H1" -> H1(11) [] name = "H2" -> H2(0) [] name = "H3" -> H3(0)
+                  [] name = "H1q" -> H1(7) [] name = "H1" -> H1(11) [] name = "H2" -> H2(0) [] name = "H3" -> H3(0) [] name = "H4" -> H4(0) [] name = "F9" -> F9(0)
 =============================================================================
